@@ -68,7 +68,7 @@ class StereoMolGraph(MolGraph):
             return color_refine_hash_smg(self)
 
     def __eq__(self, other: object) -> bool:
-        if not isinstance(other, self.__class__):
+        if type(other) is not type(self):
             return NotImplemented
 
         o_labels = label_hash(other, atom_labels=("atom_type",))
